@@ -106,6 +106,13 @@ def install(it, ex, trace, existing=None, parent_exists=True, faults=None):
             raise os_error(faults.pop("rename"))
         trace.add("rename", src, dst)
     it.models[os.rename] = m_rename
+    def m_utime(it_, path, times=None, **k):
+        # utime on a path follows a symbolic link unless told not to: the two are different effects
+        op = "lutime" if k.get("follow_symlinks") is False else "utime"
+        if op in faults:
+            raise os_error(faults.pop(op))
+        trace.add(op, path, times)
+    it.models[os.utime] = m_utime
     it.models[os.makedev] = lambda it_, a, b: ("dev", a, b)
     it.models[ops.unlink_if_exists] = lambda it_, path: trace.add("unlink_if_exists", path)
     it.models[ops.ensure_dirs] = lambda it_, path, **k: (trace.add("ensure_dirs", path, tuple(sorted(k.items()))), True)[1]
